@@ -780,6 +780,10 @@ pub fn conc_record(args: &Args) -> i32 {
         for w in [10, 15, 9, 12] {
             streams.push(crate::gen::zlib_raw(&text, 6, 0, w, 8));
         }
+        // ... and under small memory levels (the estimator then picks the other zlib hash variant)
+        for (level, mem) in [(3, 3), (6, 4), (1, 4)] {
+            streams.push(crate::gen::zlib_raw(&text, level, 0, 15, mem));
+        }
     }
     let nin = |f: usize| if f == 2 || f == 3 { streams.len() } else { files.len() };
     const NFN: usize = 8;
